@@ -424,4 +424,13 @@ example : Generated.ReverseBits32 (1 : Nat) = 2147483648 ∧ Generated.CountOneB
   have h := source_bitUtils_is_model 255 (by decide)
   exact ⟨by rw [this.1]; decide, by rw [h.2]; decide⟩
 
+open Generated in
+/-- `CopyBits32(&dst, dst_offset, src, src_offset, nbits)` (core/bit_utils.h; the new `*dst`) is the model's `copyBits32`
+    for every `uint32_t` destination, any source and offsets, `nbits ≤ 32` -/
+theorem source_copyBits32_is_model (dst dOff src sOff nbits : Nat) (hd : dst < 2^32) (hn : nbits ≤ 32) :
+    CopyBits32 (dst : Int) (dOff : Int) (src : Int) (sOff : Int) (nbits : Int) =
+      (copyBits32 dst dOff src sOff nbits : Int) := CopyBits32_eq_model dst dOff src sOff nbits hd hn
+example : Generated.CopyBits32 (0 : Nat) (4 : Nat) (255 : Nat) (0 : Nat) (3 : Nat) = 112 := by
+  rw [source_copyBits32_is_model 0 4 255 0 3 (by decide) (by decide)]; decide
+
 end Draco.C17
